@@ -44,9 +44,17 @@ func init() {
 			}
 			switch r.Weighted(3, 3, 2, 2) {
 			case 0:
-				return map[string]any{"text": hx(GenDoc(r, DocOpts{}).Text), "src": "docgen", "cmds": true}
+				y, m, dd := genDate(r)
+				if y > 9990 {
+					y = 9990
+				}
+				return map[string]any{"text": hx(GenDoc(r, DocOpts{Window: 300, Base: [3]int{y, m, dd}}).Text), "src": "docgen", "cmds": true}
 			case 1:
-				d := GenDoc(r, DocOpts{MinRecords: 1})
+				y, m, dd := genDate(r)
+				if y > 9990 {
+					y = 9990
+				}
+				d := GenDoc(r, DocOpts{MinRecords: 1, Window: 300, Base: [3]int{y, m, dd}})
 				t := d.Text
 				for k := r.Range(1, 3); k > 0; k-- { // one or more rule-violating edits / byte-level mutations
 					if m := Mutate(r, d); m != nil && r.P(1, 2) {
